@@ -20,7 +20,7 @@ for pid in ids:
         "level_claimed": {
             "category": c.get("level", "proof"),
             "text": c["level_text"],
-            "design_ref": f"DESIGN.md section 5 ({pid})",
+            "design_ref": f"DESIGN.md section 5 ({pid}: plan) and section 11 (as built)",
         },
         "level_note": c["level_note"],
         "technique": c.get("technique", "Lean 4 theorems over a model regenerated from / corresponded with the Go source"),
@@ -43,7 +43,7 @@ m = {
         "kind_free_text": "Lean 4 theorems (lake build + #print axioms audit, leanchecker in the thorough tier) over models tied to /repo by a Go->Lean translator and fact extractor (go/extract, regenerated every run) and by a differential correspondence (go/harness built against /repo with -tags verif vs. the compiled Lean model driver)",
     }],
     "checks": checks,
-    "notes": "See DESIGN.md. KNOWN_FINDINGS.txt lists the eleven defects repaired by fix: commits in /repo.",
+    "notes": "See DESIGN.md. KNOWN_FINDINGS.txt lists the twelve defects repaired by fix: commits in /repo.",
     "not_applicable": na,
 }
 json.dump(m, open(os.path.join(ROOT, "MANIFEST.json"), "w"), indent=1)
